@@ -99,6 +99,20 @@ def run(tier):
                     kinds.add("syntax-error")
                 else:
                     kinds.add("other:" + c.split("::")[-1])
+            # deep provenance: does a propagated payload take part in this value at all (through any call)?
+            deep = set()
+            for op in ops:
+                deep |= origins(body, op, transparent=lambda c: "all" if c else None, through_agg=True, record_calls=True)
+            deep_src = {x[1].split("::")[-1] for x in deep if x[0] == "call" and (x[1].endswith("::next_token") or x[1].endswith("::error_recovery")
+                        or x[1].endswith("Parser::<D, I>::reduce") or x[1] == PD + "reduce")}
+            transformers = sorted({x[1] for x in srcs if not (x[1].endswith("::next_token") or x[1].endswith("::error_recovery") or x[1].endswith("::reduce")
+                                                               or x[1].endswith("unrecognized_token_error"))})
+            if deep_src and transformers and not (kinds & {"lexer/done", "recovery/done", "reduce/some"}):
+                n_arm += 1
+                rep.ob("return.payload-verbatim", "%s bb%d via %s" % (short, bi, transformers), False,
+                       "a propagated result (%s) is passed through %s before being returned: an action/lexer error can be replaced or altered" % (sorted(deep_src), transformers),
+                       key="return:transformed:%s:%s" % (short, ",".join(t.split("::")[-1] for t in transformers)), file=body.relfile(), line=d["ln"], fn=body.path)
+                continue
             if not kinds:
                 continue
             if kinds & {"lexer/done", "recovery/done", "reduce/some"}:
